@@ -2,8 +2,9 @@
   C05 — the number parser (scan.go: `parse`, `parseNumber`).
 
   All theorems are about the generated definitions `Gen.parseNumber` / `Gen.parse`.
-  `hred` is the (separately proved) fact that `reduce128` returns; `hsz` bounds the input length
-  (`Go.len` converts the size to `Int64`).
+  The only hypothesis is `hsz : d.size < 2^63` (`Go.len` converts the size to `Int64`); that the call of
+  `reduce128` returns (non-zero significand) is `D128.Proofs.Total.reduce128_total`.
+  The value of every accepted numeral and the headline `parse` = specification are in `D128/Props/C05Value.lean`.
 
   * `Props.C05.parseNumber_total`   parseNumber terminates, never panics, error ∈ {nil, syntax, range}
   * `Props.C05.parse_total`         same for parse with the translated error values
@@ -29,21 +30,19 @@ abbrev chars (d : Go.Bytes) : List Char := d.toList.map Parse.toChar
 /-- **C05.1a** `parseNumber` terminates without panic (in particular: no index out of range) and
     returns `nil`, `parseNumberSyntaxError` or `parseNumberRangeError`. -/
 theorem parseNumber_total (g : Globals) (d : Go.Bytes) (neg sepallowed : Bool)
-    (hred : ∀ rm neg sig exp trunc, ∃ r, Gen.RoundingMode.reduce128 rm neg sig exp trunc = .ok r)
     (hsz : d.size < 2^63) :
     ∃ r e, Gen.parseNumber g d neg sepallowed = .ok (r, e) ∧
       (e = .nil ∨ e = .parseNumberSyntaxError ∨ e = .parseNumberRangeError) :=
-  Parse.parseNumber_total' g d neg sepallowed hred hsz
+  Parse.parseNumber_total' g d neg sepallowed hsz
 
 /-- **C05.1b** `parse` terminates without panic and returns `nil`, `parseSyntaxError` or
     `parseRangeError`. -/
 theorem parse_total (g : Globals) (d : Go.Bytes) (op : UInt64)
-    (hred : ∀ rm neg sig exp trunc, ∃ r, Gen.RoundingMode.reduce128 rm neg sig exp trunc = .ok r)
     (hsz : d.size < 2^63) :
     ∃ r e, Gen.parse g d op = .ok (r, e) ∧
       (e = .nil ∨ e = .parseSyntaxError ∨ e = .parseRangeError) := by
   rw [Parse.parse_eq g d op hsz]
-  exact Parse.parseM_total g op d.toList hred (by simpa using hsz)
+  exact Parse.parseM_total g op d.toList (by simpa using hsz)
 
 /-- **C05.3** the special names: whenever the specification reads the input as ±Inf / ±Infinity
     (any case) `parse` returns `inf neg`, and for (optionally signed) NaN it returns `nan op 0 0`;
@@ -61,12 +60,11 @@ theorem parse_names (g : Globals) (d : Go.Bytes) (op : UInt64) (hsz : d.size < 2
     For every byte string (bytes read as characters; no ASCII assumption is needed) the returned
     error is `parseNumberSyntaxError` iff `Spec.readNumber` rejects the input. -/
 theorem parseNumber_syntax_iff (g : Globals) (d : Go.Bytes) (neg sepallowed : Bool)
-    (hred : ∀ rm neg sig exp trunc, ∃ r, Gen.RoundingMode.reduce128 rm neg sig exp trunc = .ok r)
     (hsz : d.size < 2^63) :
     (∃ r, Gen.parseNumber g d neg sepallowed = .ok (r, .parseNumberSyntaxError)) ↔
       Spec.readNumber sepallowed (chars d) = none := by
-  obtain ⟨r, e, h, _⟩ := parseNumber_total g d neg sepallowed hred hsz
-  have key := Parse.parseNumber_syntax_accF g d neg sepallowed hred hsz r e h
+  obtain ⟨r, e, h, _⟩ := parseNumber_total g d neg sepallowed hsz
+  have key := Parse.parseNumber_syntax_accF g d neg sepallowed hsz r e h
   rw [Parse.accF_eq_readNumber] at key
   constructor
   · rintro ⟨r', h'⟩
@@ -84,11 +82,10 @@ theorem parseNumber_syntax_iff (g : Globals) (d : Go.Bytes) (neg sepallowed : Bo
 /-- variant of **C05.2** for the returned value: whatever `parseNumber` returns, its error component
     is the syntax error iff the specification rejects the input -/
 theorem parseNumber_syntax_iff' (g : Globals) (d : Go.Bytes) (neg sepallowed : Bool)
-    (hred : ∀ rm neg sig exp trunc, ∃ r, Gen.RoundingMode.reduce128 rm neg sig exp trunc = .ok r)
     (hsz : d.size < 2^63) (r : Gen.Decimal) (e : Go.Err)
     (h : Gen.parseNumber g d neg sepallowed = .ok (r, e)) :
     e = .parseNumberSyntaxError ↔ Spec.readNumber sepallowed (chars d) = none := by
-  have key := Parse.parseNumber_syntax_accF g d neg sepallowed hred hsz r e h
+  have key := Parse.parseNumber_syntax_accF g d neg sepallowed hsz r e h
   rw [Parse.accF_eq_readNumber] at key
   rw [key]
   cases Spec.readNumber sepallowed (d.toList.map Parse.toChar) <;> simp
@@ -96,11 +93,10 @@ theorem parseNumber_syntax_iff' (g : Globals) (d : Go.Bytes) (neg sepallowed : B
 /-- **C05.2b** the grammar of `parse`: the returned error is `parseSyntaxError` iff the specification
     (`Spec.readLiteral` with separators and names allowed) rejects the input. -/
 theorem parse_syntax_iff (g : Globals) (d : Go.Bytes) (op : UInt64)
-    (hred : ∀ rm neg sig exp trunc, ∃ r, Gen.RoundingMode.reduce128 rm neg sig exp trunc = .ok r)
     (hsz : d.size < 2^63) (r : Gen.Decimal) (e : Go.Err) (h : Gen.parse g d op = .ok (r, e)) :
     e = .parseSyntaxError ↔ Spec.readLiteral true true (chars d) = none := by
   rw [Parse.parse_eq g d op hsz] at h
-  exact Parse.parseM_syntax_iff g op d.toList hred (by simpa using hsz) r e h
+  exact Parse.parseM_syntax_iff g op d.toList (by simpa using hsz) r e h
 
 /-- **C05.4** canonical numerals.  Let the input be `ip [ '.' fp ] [ (e|E) [sign] ep ]` with digit
     strings `ip`, `fp`, `ep`, at least one and at most 19 significand digits, no separators, and a
@@ -113,7 +109,6 @@ theorem parse_syntax_iff (g : Globals) (d : Go.Bytes) (op : UInt64)
       (or `±Inf` with a range error when the reduced exponent exceeds 12287):
       the numeric state after the loops is `sig = m`, `exp − nfrac = e`, `trunc = 0`. -/
 theorem parseNumber_value_canonical (g : Globals) (d : Go.Bytes) (neg sepallowed : Bool)
-    (hred : ∀ rm neg sig exp trunc, ∃ r, Gen.RoundingMode.reduce128 rm neg sig exp trunc = .ok r)
     (hsz : d.size < 2^63)
     (ip fp sgn ep : List UInt8) (hasDot hasExp : Bool) (ech : UInt8)
     (hip : ∀ c ∈ ip, Parse.isDig c = true) (hfp : ∀ c ∈ fp, Parse.isDig c = true)
@@ -134,7 +129,7 @@ theorem parseNumber_value_canonical (g : Globals) (d : Go.Bytes) (neg sepallowed
     rw [hd]
     exact Parse.readNumber_canonical sepallowed ip fp sgn ep hasDot hasExp ech hip hfp hep hfp0 hne hech hsgn
       hepne hexp0
-  · exact Parse.parseNumber_canonical g d neg sepallowed hred hsz ip fp sgn ep hasDot hasExp ech hip hfp hep hd
+  · exact Parse.parseNumber_canonical g d neg sepallowed hsz ip fp sgn ep hasDot hasExp ech hip hfp hep hd
       hfp0 hne h19 hech hsgn hepne hexp0 hev
 
 end Props.C05
